@@ -60,8 +60,9 @@ func concCase(r *hxlib.Run, emit func(hxlib.Case)) {
 	switch pattern {
 	case 0: // cancel vs running query
 		name = "cancel-vs-query"
-		s.seedMany(12 + rng.Intn(30))
-		h := s.hold("dbapi:query-next", "Q", 1+rng.Intn(14))
+		n := 12 + rng.Intn(30)
+		s.seedMany(n)
+		h := s.hold("dbapi:query-next", "Q", 1+rng.Intn(n))
 		s.m(bars("Q", "query", q))
 		s.await(h)
 		s.m(bars("Q", "cancel"))
@@ -259,6 +260,10 @@ func concCase(r *hxlib.Run, emit func(hxlib.Case)) {
 	}
 	concCache[line] = res
 	lines := append([]string{line}, traceLines(res)...)
+	if res.Note != "" {
+		// a forced schedule could not be established (e.g. the query failed before its loop): nothing is demanded of it
+		lines = append(lines[:1], append([]string{"t note unforced"}, lines[1:]...)...)
+	}
 	nrep := 0
 	for _, l := range lines {
 		if strings.HasPrefix(l, "t rep") {
